@@ -10,7 +10,7 @@
   distinct pairs of the parent to distinct columns (`Bridge.IdxInjOn`).
 
   Hypotheses on the taxonomy: accepted by the model of `validate_taxonomy_tree`,
-  distinct level names, dict keys distinct (= C10's `WF`).  `sibs` / `cl` name
+  dict keys distinct (`DictOK`; together = C10's `WF`).  `sibs` / `cl` name
   the children of the parent and their level (`children parent = .ok sibs`,
   `levelUnder parent = some cl`), as in C10 `pairs_exact`.
 -/
@@ -53,12 +53,12 @@ theorem tree_pairs_meet_selector_input (t : RawTree) (hval : t.validate = .ok ()
 column `4 (a - 30) + (b - 30)` -/
 def exIdx : Node × Node → Nat := fun ab => 4 * (ab.1 - 30) + (ab.2 - 30)
 
-example : C10.exTree.validate = .ok () ∧ C10.exTree.hierarchy.Nodup ∧ DictOK C10.exTree ∧
+example : C10.exTree.validate = .ok () ∧ DictOK C10.exTree ∧
     C10.exTree.children (some (0, 10)) = .ok [21, 20] ∧
     C10.exTree.levelUnder (some (0, 10)) = some 1 ∧
     (C10.exTree.leafPairs (some (0, 10))).map exIdx = [1, 2] ∧
     IdxInjOn exIdx (C10.exTree.leafPairs (some (0, 10))) :=
-  ⟨by rfl, by decide, dictOK_of_b (by decide), by decide, by decide, by decide,
+  ⟨by rfl, dictOK_of_b (by decide), by decide, by decide, by decide,
     by unfold IdxInjOn; decide⟩
 
 /-- "For every such leaf pair the number of selected genes that are reference
